@@ -1,1 +1,65 @@
-import RosedVerif.Model.Ops
+/-
+C18 — Every public operation is total: no panics, terminates, valid UTF-8 out.
+In the model Go panics are `Except.error` values and every loop is structural or carries fuel, so
+"returns normally" is `∃ r, op … = .ok r`; termination of the model functions is accepted by Lean's
+termination checker (fuel exhaustion would be the error `.fuel`, excluded by these theorems); a
+result is a list of code points, i.e. valid UTF-8, and sub-editor byte offsets are proved to lie on
+code-point boundaries (`CutAtAtoms`).  Instance A: real segmentation (`cxA_Sane` from the finite-state
+theory).
+-/
+import RosedVerif.Model.InstAFacts
+import RosedVerif.Model.LinesLemmas
+namespace RosedVerif.Props
+open RosedVerif
+
+theorem C18_collapseSpace (text sep : List Int) : ∃ r, collapseSpace cxA text sep = .ok r :=
+  collapseSpace_total cxA_Sane text sep
+theorem C18_wrapLines (text : List Int) (w : Int) (sep : List Int) : ∃ r, wrapLines cxA text w sep = .ok r :=
+  wrapLines_total cxA_Sane text w sep
+theorem C18_justifyLine (text : List Int) (w : Int) : ∃ r, justifyLine cxA text w = .ok r :=
+  justifyLine_total cxA_Sane text w
+theorem C18_combineColumns (l r : List (List Int)) (gap : Int) (hg : 0 ≤ gap) :
+    ∃ x, combineColumns cxA l r gap = .ok x := combineColumns_total cxA l r gap hg
+
+theorem C18_chars (ed : Editor Int) (s e : Int) : ∃ r, ed.chars cxA s e = .ok r ∧ ed.CutAtAtoms cxA r :=
+  chars_total' cxA_Sane ed s e
+theorem C18_lines (ed : Editor Int) (s e : Int) : ∃ r, ed.linesSel cxA s e = .ok r ∧ ed.CutAtAtoms cxA r :=
+  linesSel_total' cxA_Sane ed s e
+theorem C18_commit (ed r : Editor Int) (h : ed.CutAtAtoms cxA r) (t : List Int) (o : Options Int) :
+    ∃ r', ((r.withText t).withOpts o).commit cxA = .ok r' := commit_total_of_cut cxA_Sane ed r h t o
+theorem C18_insert (ed : Editor Int) (p : Int) (t : List Int) : ∃ r, ed.insert cxA p t = .ok r :=
+  insert_total cxA_Sane ed p t
+theorem C18_delete (ed : Editor Int) (s e : Int) : ∃ r, ed.delete cxA s e = .ok r := delete_total cxA_Sane ed s e
+theorem C18_overtype (ed : Editor Int) (p : Int) (t : List Int) : ∃ r, ed.overtype cxA p t = .ok r :=
+  overtype_total cxA_Sane ed p t
+theorem C18_collapseSpaceOpts (ed : Editor Int) (o : Options Int) : ∃ r, ed.collapseSpaceOpts cxA o = .ok r :=
+  collapseSpaceOpts_total cxA_Sane ed o
+theorem C18_insertTable (ed : Editor Int) (p : Int) (d : List (List (List Int))) (w : Int) (o : Options Int) :
+    ∃ r, ed.insertTableOpts cxA p d w o = .ok r := insertTableOpts_total cxA_Sane ed p d w o
+theorem C18_apply (ed : Editor Int) (f : Nat → List Int → List (List Int)) (o : Options Int) :
+    ∃ r, ed.applyOpts cxA f o = .ok r := ⟨_, applyOpts_eq_spec cxA ed f o⟩
+
+/-- the explicit panic of InsertTwoColumnsOpts is unreachable for EVERY percentage, width and gap
+(both columns are at least 2 wide); the only other failure the model admits is a negative
+`strings.Repeat` count, excluded when wrapped lines fit their width -/
+theorem C18_twoColumns_no_explicit_panic (ed : Editor Int) (p : Int) (l r : List Int) (g w : Int) (pct : Pct)
+    (o : Options Int) : ed.insertTwoColumnsOpts cxA p l r g w pct o ≠ .error .explicit :=
+  insertTwoColumnsOpts_ne_explicit cxA_Sane ed p l r g w pct o
+
+theorem C18_twoColumns_partial (ed : Editor Int) (p : Int) (l r : List Int) (g w : Int) (pct : Pct)
+    (o : Options Int) :
+    (∃ x, ed.insertTwoColumnsOpts cxA p l r g w pct o = .ok x) ∨
+      ed.insertTwoColumnsOpts cxA p l r g w pct o = .error .repeatNeg :=
+  insertTwoColumnsOpts_ok_or cxA_Sane ed p l r g w pct o
+
+/-- at cluster level (one token per cluster) two-column layout is total outright -/
+theorem C18_twoColumns_clusters {α : Type} [DecidableEq α] (cx : Ctx α)
+    (htriv : ∀ s, cx.ends s = List.range' 1 s.length) (hb : ∀ a, 0 < cx.blen a) (ed : Editor α) (p : Int)
+    (l r : List α) (g w : Int) (pct : Pct) (o : Options α) (hg : 0 ≤ g) :
+    ∃ x, ed.insertTwoColumnsOpts cx p l r g w pct o = .ok x :=
+  insertTwoColumnsOpts_total_triv cx htriv hb ed p l r g w pct o hg
+
+/-! non-vacuity: the inputs on which the unrepaired code panicked -/
+example : ∃ r, (Editor.root ([] : List Int) {}).alignOpts cxA 1 8 { preservePara := true } = .ok r := ⟨_, rfl⟩
+
+end RosedVerif.Props
